@@ -121,7 +121,7 @@ class PingPayload(Payload):
         """
         Unpack a PingPayload.
         """
-        return PingPayload(identifier)
+        return cls(identifier)
 
 
 class PongPayload(PingPayload):
